@@ -38,7 +38,7 @@ CASES = [
  # neutral
  dict(id='n-logging-in-setpenalty', file=AS, expect='silent',
       old="            self._penalty = penalty\n        return self._update_objective()", new="            self._penalty = penalty\n            _name = getattr(penalty, '__name__', '')\n        return self._update_objective()"),
- dict(id='n-tie-rule-strict', file=EN, expect='silent',
+ dict(id='m-tie-rule-strict', file=EN, expect='C07.d',
       old="            if solver.bestEnergy <= energy:", new="            if solver.bestEnergy < energy:"),
  dict(id='n-random-state-handle-only', file=AS, expect='silent',
       old="        self._saveiter = generations\n", new="        from mystic.tools import random_state\n        _rng = random_state()\n        self._saveiter = generations\n"),
